@@ -54,10 +54,7 @@ Proof.
       - cbn. split; [reflexivity|discriminate].
       - apply pstart_vac. reflexivity.
       - exact Hj.
-      - unfold s1, sa, mkafter, set_asgn. cbn [bef stk depth asgn].
-        assert (H := ND_app (ra ++ [op]) (bef s) (rb ++ rest)).
-        rewrite <- app_assoc in H. cbn [app] in H. specialize (H Hnd).
-        rewrite rev_app_distr in H. cbn [rev app] in H. exact H.
+      - right. reflexivity.
       - intros r a0 Hr. unfold s1, sa, mkafter, set_asgn. cbn [bef asgn stk depth].
         rewrite <- rev_mid. apply Hq. lia.
       - intros E a0. unfold s1, sa, mkafter, set_asgn. cbn [bef asgn stk depth].
@@ -141,10 +138,7 @@ Proof.
       - cbn. split; [reflexivity|discriminate].
       - apply pstart_vac. reflexivity.
       - exact Hj.
-      - unfold s1, sa, mkafter. cbn [bef].
-        assert (H := ND_app (ra ++ [op]) (bef s) (rb ++ rest)).
-        rewrite <- app_assoc in H. cbn [app] in H. specialize (H Hnd).
-        rewrite rev_app_distr in H. cbn [rev app] in H. exact H.
+      - right. reflexivity.
       - intros r a0 Hr. unfold s1, sa, mkafter. cbn [bef asgn].
         rewrite <- rev_mid. apply Hq. lia.
       - intros E a0. unfold s1, sa, mkafter. cbn [bef asgn].
